@@ -103,6 +103,8 @@ class World(object):
         self.deactivated = 0
         self.peer_rw = 1
         self.listener = None
+        self.dying = False          # MAC deactivate() raises IOError(ENODEV)
+        self.link_died = []         # IOError that left terminate()/run loop
 
     # ---- MAC below the run loop
     def mac_exchange(self, send_data, timeout):
@@ -118,6 +120,10 @@ class World(object):
 
     def mac_deactivate(self, *args, **kwargs):
         self.deactivated += 1
+        if self.dying:
+            # the driver is gone: nfc.dep's deactivate() absorbs
+            # CommunicationError but not the IOError of a lost device
+            raise IOError(errno.ENODEV, "scripted: device gone")
 
     def loop(self, frames, local=False):
         """run the real run loop until it asks for a frame beyond `frames`"""
@@ -130,17 +136,30 @@ class World(object):
             pass
         except SystemExit:
             pass        # what the run loop raises after an IOError
+        except IOError as e:
+            if not (self.dying and e.errno == errno.ENODEV):
+                raise LoopDied(type(e).__name__)
+            # the scripted IOError of the dying driver came back through
+            # terminate(): the thread that called llc.run() gets it (C18)
+            self.link_died.append("run")
         except Exception as e:
             raise LoopDied(type(e).__name__)
+
+    def direct_terminate(self):
+        try:
+            self.L.terminate(reason="harness")
+        except IOError as e:
+            if not (self.dying and e.errno == errno.ENODEV):
+                raise
+            self.link_died.append("terminate")
 
     # ---- link steps
     def step(self, name, sock):
         """-> callable for step `name`; connection level frames address sock"""
-        L = self.L
         addr = sock.addr if sock is not None and sock.addr is not None else 40
         peer = sock.peer if sock is not None and sock.peer is not None else PEER
         if name == 'terminate':
-            return lambda: L.terminate(reason="harness")
+            return self.direct_terminate
         if name == 'loop:local':
             return lambda: self.loop([b"\x00\x00"], local=True)
         if name == 'loop:disrupt':
@@ -482,9 +501,11 @@ def pick_script(sx, scripts):
     return role, list(steps)
 
 
-def call_vs_link(sx, state, scripts, fine=0, poison=None):
+def call_vs_link(sx, state, scripts, fine=0, poison=None, dying=0):
     """poison: an un-encodable outbound PDU is queued ('resolve' / 'connect'
-    / 'raw'), so that the next run-loop iteration fails inside exchange()"""
+    / 'raw'), so that the next run-loop iteration fails inside exchange().
+    dying: the driver is gone when the link ends - the MAC's deactivate(),
+    called by terminate(), raises IOError(ENODEV)"""
     S = coop.SCHED
     S.fine = bool(fine)
     S.trace_files = TRACE_FILES
@@ -497,11 +518,20 @@ def call_vs_link(sx, state, scripts, fine=0, poison=None):
         sx.reach("poisoned:" + poison)
     call = sx.pick("call", CALLS[kind])
     what = "%s/%s" % (state, call)
+    mark = ""
+    if dying:
+        w.dying = True
+        what += ":deactivate-raises"
+        mark = ":deactivate-raises"
+        sx.reach("dying-driver")
     S.steps = [(n, w.step(n, sock)) for n in script]
+    got = []
 
     def first():
         S.point('call', what)
-        return w.call(call, sock, "m0")
+        r = w.call(call, sock, "m0")
+        got.append(r)
+        return r
     res = run_app(S, first, what)
     reach_points(sx, S, "%s.%s" % (kind, call))
     if res[0] == 'fail':
@@ -510,14 +540,23 @@ def call_vs_link(sx, state, scripts, fine=0, poison=None):
     if S.waits and S.ran and res[0] in ('ret', 'err'):
         sx.reach("woken-by-link-end")
     link_rest(sx, S)
-    sx.check(w.L.link.SHUTDOWN, "link-not-shut-down-after-script")
+    sx.check(w.L.link.SHUTDOWN, "link-not-shut-down-after-script" + mark)
     # every later call returns or raises Error without waiting
     failures = []
     later = []
     for i, c in enumerate(LATER[kind]):
         r = run_app(S, lambda: w.call(c, sock, "l%d" % i),
-                    "later:%s/%s" % (state, c), failures)
+                    "later:%s/%s%s" % (state, c, mark), failures)
         later.append([c] + r)
+    # ... also on a connection that accept() returned while the link ended
+    if got and isinstance(got[0], tco.DataLinkConnection):
+        sx.reach("accepted-while-link-ended" if S.ran and
+                 S.ran[-1][1] != 'after' else "accepted-before-link-ended")
+        for i, c in enumerate(['getsockopt', 'poll_recv', 'recv', 'send',
+                               'poll_acks', 'close', 'send', 'close']):
+            r = run_app(S, lambda: w.call(c, got[0], "a%d" % i),
+                        "later:accepted/%s%s" % (c, mark), failures)
+            later.append(["accepted." + c] + r)
     report(sx, [f + ":after-link-end" for f in failures])
     sx.reach("later-calls-done")
     return dict(script=script, role=role, call=call, first=res, ran=S.ran,
@@ -540,12 +579,13 @@ def _ho_request():
 HO_REQUEST = _ho_request()
 
 
-def service(sx, server, body, queued, scripts, fine=0):
+def service(sx, server, body, queued, scripts, fine=0, dying=0):
     S = coop.SCHED
     S.fine = bool(fine)
     S.trace_files = TRACE_FILES
     role, script = pick_script(sx, scripts)
     w = World(sx, role)
+    w.dying = bool(dying)
     w.late = None if server == 'snep' else HO_REQUEST[:7]
     L = w.L
     if server == 'snep':
@@ -556,7 +596,8 @@ def service(sx, server, body, queued, scripts, fine=0):
         listen_body = lambda sock: srv.listen(L, sock)
         serve_body = srv.serve
     lsock = srv._coop_args[-1]                  # the nfc.llcp.Socket
-    what = "%s.%s" % (server, body)
+    what = "%s.%s" % (server, body) + \
+        (":deactivate-raises" if dying else "")
     if body == 'listen':
         for i in range(queued):
             L.dispatch(pdu.Connect(lsock._tco.addr, PEER + i, 128, 1))
@@ -586,9 +627,10 @@ def service(sx, server, body, queued, scripts, fine=0):
     if res[0] == 'fail':
         fail(sx, S, res[1])
     sx.check(res == ['ret', None], "service-body-ends-abnormally:" + what)
-    sx.reach("service:" + what)
+    sx.reach("service:%s.%s" % (server, body))
     link_rest(sx, S)
-    sx.check(L.link.SHUTDOWN, "link-not-shut-down-after-script")
+    sx.check(L.link.SHUTDOWN, "link-not-shut-down-after-script" +
+             (":deactivate-raises" if dying else ""))
     # threads the body started run (as further application threads) after
     # the link has ended and must return too
     failures = []
@@ -770,6 +812,22 @@ def partitions(tier):
             # line granularity
             add("call_vs_link", "%s:fine" % st, state=st, fine=1,
                 scripts=[['ini', ['terminate']], ['tgt', ['loop:remote']]])
+    # the driver is gone when the link ends (deactivate() raises IOError)
+    DYING = ['raw:bound', 'dlc:listen', 'dlc:est', 'sd:fresh']
+    for st in (DYING if quick else STATES):
+        ends = ENDS[:5] if quick else ENDS
+        roles = [None] if quick else ['ini', 'tgt']
+        for role in roles:
+            add("call_vs_link", "%s:dying%s" % (st, ":" + role if role else ""),
+                state=st, dying=1,
+                scripts=[[role or default_role(e), [e]] for e in ends])
+    for server in ('snep', 'handover'):
+        add("service", "%s:listen:0:dying" % server, server=server,
+            body='listen', queued=0, dying=1,
+            scripts=[[default_role(e), [e]] for e in ENDS[:5]])
+        add("service", "%s:serve:0:dying" % server, server=server,
+            body='serve', queued=0, dying=1,
+            scripts=[[default_role(e), [e]] for e in ENDS[:5]])
     for kind in sorted(WAITERS):
         if quick:
             add("waiters_vs_link", "%s:2" % kind, kind=kind, n=2,
@@ -837,6 +895,7 @@ LOCKING = WAITING + ['raw.bind', 'raw.close', 'raw.setsockopt', 'raw.send_nb',
                      'dlc.bind', 'dlc.listen', 'dlc.setsockopt', 'dlc.send_nb']
 _MUST = ["later-calls-done", "spawned-thread-ran", "woken-by-link-end",
          "poisoned:resolve", "poisoned:connect", "poisoned:raw",
+         "dying-driver", "accepted-before-link-ended",
          "multi:several-woken"] + \
     ["multi:all-asleep:" + k for k in sorted(WAITERS)] + \
     ["multi:all-returned:" + k for k in sorted(WAITERS)] + \
@@ -854,7 +913,7 @@ MUST_REACH = {
     ["pre:dlc.getsockopt:line", "pre:dlc.getsockname:line"],
 }
 BOUNDS = {
-    "quick": "schedule enumeration, not data: 2 logical threads (one application call, the link thread). Application call: each of send (blocking and MSG_DONTWAIT), sendto, recv, recvfrom, accept, connect (by address and by name), listen, bind, getsockopt, setsockopt, getsockname/getpeername, resolve (bytes and str), poll('recv'/'send'/'acks') without and with time-out, close - on a socket of each suitable kind in each of 25 states reached by <= 5 real set-up operations (raw/ldl: unbound, bound, datagram queued for recv, PDU queued for sending, connected, closed; dlc: unbound, bound, listening with empty / filled backlog, a thread sleeping in connect(), established (passive open through the real listen/dispatch/accept), established with data queued, with an unacknowledged / a not yet collected I PDU (send window full when RW(R)=1), CLOSE_WAIT, a thread sleeping in close(), closed; service discovery fresh / request pending). Link thread: one step that ends the link out of {llc.terminate() called directly, run loop ended by the terminate callback (local choice), MAC exchange returns None (link disruption), DISC received (remote choice), IOError in the MAC (input/output error + SystemExit), nfc.clf.TimeoutError in the MAC} each run through the real run_as_initiator/run_as_target over a scripted MAC, optionally preceded by one event of the conversation delivered by one real run-loop iteration (DISC, DM, FRMR, I with wrong N(S), valid I, UI, CONNECT, CC for the socket under test, SYMM) = 2 preemptions. Preemption points: before the call, every lock acquisition while the application thread holds no lock, every acquisition of a further lock while it holds one (a link step that then needs the held lock while owning the wanted one = lock-order deadlock), inside every Condition.wait(), after every wake-up; all enumerated. After the link ended 16-25 further calls on the same socket. Service bodies SnepServer._listen/_serve and HandoverServer.listen/serve with 0-2 queued connection requests / request fragments, link ended at every preemption point, threads they start run afterwards. The link loop dying from inside: for every state one run-loop iteration whose outbound PDU can not be encoded (a thread sleeping in resolve() of a 261-octet name, in connect() to a 261-octet service name, or a raw access point that queued a PDU with DSAP 70; link MIU 2175) - exchange() must absorb the EncodeError and the loop end the link; an exception other than SystemExit/KeyboardInterrupt leaving run_as_initiator/run_as_target is the violation run-loop-raises. Several waiters: 2 application threads (real call stacks, one running at a time) asleep in the same kind of call - resolve() of different names, accept() on one listening socket, recv()/recvfrom() on one raw / logical-data-link / connection socket, blocking send() on one connection / raw socket, poll('recv'), poll('acks') - in each rotation of the order they went to sleep, then each link-ending step, the woken threads run in every order; none may stay asleep. Symbolic: where the link thread runs (flags), RW announced by the peer 0..15 (send window open/full), link MIU 128..2175 for connection-less sockets, payload octets, SNEP header version/length octets",
+    "quick": "schedule enumeration, not data: 2 logical threads (one application call, the link thread). Application call: each of send (blocking and MSG_DONTWAIT), sendto, recv, recvfrom, accept, connect (by address and by name), listen, bind, getsockopt, setsockopt, getsockname/getpeername, resolve (bytes and str), poll('recv'/'send'/'acks') without and with time-out, close - on a socket of each suitable kind in each of 25 states reached by <= 5 real set-up operations (raw/ldl: unbound, bound, datagram queued for recv, PDU queued for sending, connected, closed; dlc: unbound, bound, listening with empty / filled backlog, a thread sleeping in connect(), established (passive open through the real listen/dispatch/accept), established with data queued, with an unacknowledged / a not yet collected I PDU (send window full when RW(R)=1), CLOSE_WAIT, a thread sleeping in close(), closed; service discovery fresh / request pending). Link thread: one step that ends the link out of {llc.terminate() called directly, run loop ended by the terminate callback (local choice), MAC exchange returns None (link disruption), DISC received (remote choice), IOError in the MAC (input/output error + SystemExit), nfc.clf.TimeoutError in the MAC} each run through the real run_as_initiator/run_as_target over a scripted MAC, optionally preceded by one event of the conversation delivered by one real run-loop iteration (DISC, DM, FRMR, I with wrong N(S), valid I, UI, CONNECT, CC for the socket under test, SYMM) = 2 preemptions. Preemption points: before the call, every lock acquisition while the application thread holds no lock, every acquisition of a further lock while it holds one (a link step that then needs the held lock while owning the wanted one = lock-order deadlock), inside every Condition.wait(), after every wake-up; all enumerated. After the link ended 16-25 further calls on the same socket. Service bodies SnepServer._listen/_serve and HandoverServer.listen/serve with 0-2 queued connection requests / request fragments, link ended at every preemption point, threads they start run afterwards. Dying driver: for 4 socket states (thorough: all) and the four server bodies each link-ending step with a MAC whose deactivate() raises IOError(ENODEV) inside terminate(). Connections returned by accept() while the link ended are exercised by 8 further calls. The link loop dying from inside: for every state one run-loop iteration whose outbound PDU can not be encoded (a thread sleeping in resolve() of a 261-octet name, in connect() to a 261-octet service name, or a raw access point that queued a PDU with DSAP 70; link MIU 2175) - exchange() must absorb the EncodeError and the loop end the link; an exception other than SystemExit/KeyboardInterrupt leaving run_as_initiator/run_as_target is the violation run-loop-raises. Several waiters: 2 application threads (real call stacks, one running at a time) asleep in the same kind of call - resolve() of different names, accept() on one listening socket, recv()/recvfrom() on one raw / logical-data-link / connection socket, blocking send() on one connection / raw socket, poll('recv'), poll('acks') - in each rotation of the order they went to sleep, then each link-ending step, the woken threads run in every order; none may stay asleep. Symbolic: where the link thread runs (flags), RW announced by the peer 0..15 (send window open/full), link MIU 128..2175 for connection-less sockets, payload octets, SNEP header version/length octets",
     "thorough": "as quick with every nfc.clf.CommunicationError subclass (TimeoutError, TransmissionError, ProtocolError, BrokenLinkError, CommunicationError itself) raised by the MAC, all three un-encodable PDUs in every state and both roles, 2 and 3 sleeping threads per kind of call (all terminators, both roles, also after a conversation event), both roles (initiator/target run loop) x all 6 link-ending steps (adds NFC-DEP time-out in exchange) alone and after every listed conversation event (all 2-step scripts), VERIF_SEED-chosen scripts of 3-4 link steps (up to 4 preemptions) for 14 states, and for every state and call a second enumeration at source-line granularity: a preemption point before every line of nfc.llcp.llc/tco/socket and the two server modules that the application thread executes while it holds no lock (terminators: llc.terminate(), remote DISC)",
 }
 OUTSIDE = ["more than one *running* application thread (two calls racing on one socket, a second thread calling close() on a socket another thread waits on); several threads are covered only asleep in the same kind of call when the link ends, descheduled nowhere but in Condition.wait()",
